@@ -113,8 +113,9 @@ def readColumnSpec (w n : Nat) (bs : Bits) : Except Err (List (Option Nat) × Bi
       * the minimum is the least present entry (all ones when nothing is present),
       * `d = 0` exactly when the producer saw all entries equal (`sawEqual`), and then no
         increments follow and the entries are indeed all equal,
-      * otherwise there is one increment per subset, all ones exactly for the missing entries,
-        and `increment = entry − minimum` for the present ones. -/
+      * otherwise something is present (an all-missing column has `d = 0`), there is one
+        increment per subset, all ones exactly for the missing entries, and
+        `increment = entry − minimum` for the present ones. -/
 def ColOK (w : Nat) (raws : List (Option Nat)) (sawEqual : Bool) (bits : Bits) : Prop :=
   ∃ (mn : Bits) (d : Nat) (incs : List Bits),
     bits = mn ++ toBits 6 d ++ incs.flatten ∧ mn.length = w ∧ d < 64 ∧
@@ -123,9 +124,9 @@ def ColOK (w : Nat) (raws : List (Option Nat)) (sawEqual : Bool) (bits : Bits) :
       | none => mn = ones w
       | some lo => ofBits mn = lo) ∧
     (d = 0 → incs = [] ∧ ∀ r ∈ raws, r = raws.headD none) ∧
-    (0 < d → incs.length = raws.length ∧ ∀ p ∈ raws.zip incs,
+    (0 < d → ∃ lo, colMin raws = some lo ∧ incs.length = raws.length ∧ ∀ p ∈ raws.zip incs,
         p.2.length = d ∧ (p.1 = none ↔ p.2 = ones d) ∧
-        ∀ v, p.1 = some v → ∃ lo, colMin raws = some lo ∧ lo ≤ v ∧ ofBits p.2 = v - lo)
+        ∀ v, p.1 = some v → lo ≤ v ∧ ofBits p.2 = v - lo)
 
 /-- what a character entry of a `k`-byte field is expected to decode to: the string truncated or
     blank-padded to the field width, `k` bytes 0xFF for a missing entry -/
